@@ -22,7 +22,7 @@ TECHNIQUE = ("runtime monitoring: wire recorder on a reference Tor (ADD_ONION/DE
              "independent control-spec 3.27 parser) + attribute snapshots of the service object, complete "
              "enumeration of the option product")
 LEVEL_TEXT = ("Held on the executions observed: the complete product route x version x key x detach x single-hop x "
-              "auth x port-forms x waiting mode (about 15 000 cells, every cell run once against a fresh reference Tor), "
+              "auth x port-forms x waiting mode (about 16 000 cells, every cell run once against a fresh reference Tor), "
               "540 multi-creation histories re-using the caller's request objects, "
               "plus seeded random port/key/client strings on the thorough tier. Enumeration of the stated cells, "
               "not a proof for other port numbers, paths, names or keys.")
@@ -42,6 +42,13 @@ RULE = ("a case = one cell (route in {EphemeralOnionService.create, EphemeralAut
         "Non-trivial = the ADD_ONION line was decoded and compared (or, for CR/LF keys, the absence of any "
         "ADD_ONION/foreign line was checked).")
 ASSUMPTIONS = [
+    "tagged server-variant input classes: opaque-caller-keys (the reference Tor accepts an undecodable caller KeyBlob verbatim, so that blobs "
+    "whose first characters occur in 'RSA1024:' / 'ED25519-V3:' can be supplied; create() of an authenticated v2 service cannot complete there "
+    "and is not judged) and auth-service-id-not-derived-from-key (the ServiceID returned for a BasicAuth service is not the hash of its key; "
+    "HS_DESC events name the key-derived id); the per-ADD_ONION / DEL_ONION oracle is unchanged in both",
+    "cells with tor_non_anonymous drive txtorcon.Tor(reactor, proto, _non_anonymous=True/False).create_onion_service with single_hop "
+    "False/None/True; the reference Tor is in the mode the Tor object states, so a request that does not match it is refused by Tor and "
+    "only the command content is judged: the flags must follow the REQUEST",
     "Tor is spec-conforming: DiscardPK => no PrivateKey line; a supplied key is not echoed - except in the tagged input class "
     "out-of-spec-server-sends-key-despite-discardpk, where only key custody ('no key is ever stored') and the command content are judged",
     "for a requested version 2 with no key both NEW:BEST and NEW:RSA1024 are accepted as 'a new version-2 key' (BEST meant RSA1024 while v2 existed); version 3 must say NEW:ED25519-V3",
@@ -117,6 +124,10 @@ def auth_clients(kind):
     }[kind]
 
 
+ADV_KEY_KINDS = ("bare-adv", "prefixed-adv")      # caller blobs whose first characters occur in the type prefix
+SMALL_PORTS = ("str", "int+pair+str")
+
+
 def all_cells():
     for route in ROUTES:
         auths = AUTHS if route == "auth" else (None,)
@@ -125,6 +136,44 @@ def all_cells():
             yield {"route": route, "version": version, "key": key, "detach": detach, "single_hop": single,
                    "auth": a, "clients": auth_clients(a) if a else None, "ports_id": pl,
                    "ports": PORT_LISTS[pl], "await_all": aw}
+        # caller keys with adversarial first characters (server variant: opaque caller keys)
+        for version, key, adv, detach, a, pl in itertools.product(
+                (2, 3), ADV_KEY_KINDS, range(len(ADV_HEADS[2])), (False, True), auths, SMALL_PORTS):
+            yield {"route": route, "version": version, "key": key, "adv": adv, "detach": detach, "single_hop": False,
+                   "auth": a, "clients": auth_clients(a) if a else None, "ports_id": pl,
+                   "ports": PORT_LISTS[pl], "await_all": False, "server_variant": "opaque-caller-keys"}
+    # server variant: the ServiceID of a BasicAuth service is not derived from its key
+    for key, detach, a, pl, aw in itertools.product(
+            ("none", "bare", "prefixed"), (False, True), ("b1n", "b1t", "b2", "b3", "b3n"), SMALL_PORTS, (False, True)):
+        yield {"route": "auth", "version": 2, "key": key, "detach": detach, "single_hop": False,
+               "auth": a, "clients": auth_clients(a), "ports_id": pl, "ports": PORT_LISTS[pl], "await_all": aw,
+               "server_variant": "auth-service-id-not-derived-from-key"}
+    # state on the txtorcon.Tor object (_non_anonymous, as set by launch(non_anonymous_mode=...)) x the request
+    for tna, single, version, key, detach, pl in itertools.product(
+            (True, False), (False, None, True), (2, 3), ("none", "discard", "bare"), (False, True), SMALL_PORTS):
+        yield {"route": "tor", "version": version, "key": key, "detach": detach, "single_hop": single,
+               "auth": None, "clients": None, "ports_id": pl, "ports": PORT_LISTS[pl], "await_all": False,
+               "tor_non_anonymous": tna}
+
+
+# first characters taken from the character sets of "RSA1024:" / "ED25519-V3:" (base64 alphabet only)
+ADV_HEADS = {2: ("R", "SA", "A1024", "RSA1024RSA", "4201ASR0", "AAAA"),
+             3: ("E", "D2", "ED25519V3", "V3ED25519E", "9152DE3V", "2222")}
+
+
+def adversarial_blob(version, i):
+    head = ADV_HEADS[version][i % len(ADV_HEADS[version])]
+    if version == 2:
+        # not a decodable RSA key (real ones always start with "MII"): an opaque caller key
+        return head + "MIICXAIBAAKBgQvfC14keyBlobWithAdversarialHead0123456789+/abcdefghijklmnopqrstuvwxyz"[:88 - len(head)]
+    import base64
+    raw = base64.b64decode((head + "vfC14" * 20)[:86] + "==")
+    return base64.b64encode(raw).decode("ascii")          # 64 bytes: a well-formed ED25519-V3 blob
+
+
+class _Blob(object):
+    def __init__(self, blob):
+        self.blob = blob
 
 
 def key_material(cell):
@@ -138,6 +187,9 @@ def key_material(cell):
     if kind == "discard":
         from txtorcon.onion import DISCARD
         return DISCARD, ({"NEW:BEST", "NEW:RSA1024"} if version == 2 else {"NEW:ED25519-V3"}), None
+    if kind in ADV_KEY_KINDS:
+        b = cell.get("adv_blob") or adversarial_blob(version, int(cell.get("adv", 0)))
+        return (b if kind == "bare-adv" else prefix + b), {prefix + b}, _Blob(b)
     if kind == "bare":
         return k.blob, {prefix + k.blob}, k
     if kind == "prefixed":
@@ -193,8 +245,19 @@ def key_class(cell):
     return "crlf" if cell["key"].startswith("crlf") else cell["key"]
 
 
+def variant_class(cell):
+    out = []
+    if cell.get("server_variant"):
+        out.append("server-variant-" + cell["server_variant"])
+    if "tor_non_anonymous" in cell:
+        out.append("tor-object-non-anonymous=%s+single_hop=%s" % (cell["tor_non_anonymous"], cell["single_hop"]))
+    return "+".join(out)
+
+
 def input_class(cell, extra=None):
     s = "%s+v%d+key=%s+auth=%s" % (cell["route"], cell["version"], key_class(cell), auth_class(cell))
+    if variant_class(cell):
+        s += "+" + variant_class(cell)
     if extra:
         s += "+" + extra
     return s
@@ -261,9 +324,11 @@ def strings_of(obj, depth=0, seen=None):
 class Ctx(object):
     """one control connection + reference Tor (+ TorConfig / txtorcon.Tor) shared by the creations of a history"""
 
-    def __init__(self, single_hop, probe=False):
+    def __init__(self, single_hop, probe=False, variant=None):
         # probe: OUT-OF-SPEC server that answers with PrivateKey= although DiscardPK was sent
-        self.tor = OT.OnionTor(non_anonymous_mode=bool(single_hop), send_key_despite_discard=bool(probe))
+        self.tor = OT.OnionTor(non_anonymous_mode=bool(single_hop), send_key_despite_discard=bool(probe),
+                               opaque_caller_keys=(variant == "opaque-caller-keys"),
+                               unlinked_auth_service_ids=(variant == "auth-service-id-not-derived-from-key"))
         self.proto, self.tor, self.link = connected_protocol(self.tor)
         self.reactor = OT.PortReactor()
         self.aud = audit.Auditor(wire.LClock())
@@ -298,9 +363,10 @@ def run_cell(cell, rec, probe=False, ctx=None, objs=None, extra_class=None, inje
         rec.violation(clause, input_class(cell, ex or None), detail, case)
 
     if ctx is None:
-        ctx = Ctx(cell["single_hop"], probe)
+        ctx = Ctx(cell["single_hop"], probe, cell.get("server_variant"))
     tor, proto, link, reactor, aud = ctx.tor, ctx.proto, ctx.link, ctx.reactor, ctx.aud
-    tor.non_anonymous_mode = bool(cell["single_hop"])
+    # the server's mode: what the txtorcon.Tor object says it launched (if stated), else whatever is requested
+    tor.non_anonymous_mode = bool(cell["tor_non_anonymous"]) if "tor_non_anonymous" in cell else bool(cell["single_hop"])
     logs = audit.LogCapture()
     logs.start()
     snaps = []          # (moment, [strings])
@@ -355,7 +421,7 @@ def run_cell(cell, rec, probe=False, ctx=None, objs=None, extra_class=None, inje
             tor.script("ADD_ONION", (512, [("end", "Bad arguments to ADD_ONION: refused by the harness")]))
         if route == "tor":
             if ctx.ttor is None:
-                ctx.ttor = txtorcon.Tor(reactor, proto)
+                ctx.ttor = txtorcon.Tor(reactor, proto, _non_anonymous=cell.get("tor_non_anonymous"))
             base = len(tor.lines)
             d = ctx.ttor.create_onion_service(ports, **kw)
         else:
@@ -487,7 +553,7 @@ def run_cell(cell, rec, probe=False, ctx=None, objs=None, extra_class=None, inje
             want_flags.add("BasicAuth")
         if set(parsed.flags) != want_flags:
             V("flags-mismatch", {"want": sorted(want_flags), "got": parsed.flags},
-              extra="detach=%d+single=%d" % (cell["detach"], cell["single_hop"]))
+              extra="detach=%d+single=%d" % (cell["detach"], bool(cell["single_hop"])))
         # client auth
         want_auth = []
         for c in (cell["clients"] or []):
@@ -507,7 +573,8 @@ def run_cell(cell, rec, probe=False, ctx=None, objs=None, extra_class=None, inje
             V("harness-add-onion-not-handled", {"lines": mine()})
             return bad
         ent = tor.add_onion_log[-1]
-        expect_refusal = route == "auth" and (version == 3 or not cell["clients"])
+        expect_refusal = (route == "auth" and (version == 3 or not cell["clients"])) or \
+            bool(cell["single_hop"]) != bool(tor.non_anonymous_mode)
         if ent["code"] != 250:
             if not expect_refusal:
                 if not bad:
@@ -723,6 +790,20 @@ def random_cell(rnd):
     if key == "crlf-random":
         cell["crlf"] = [rnd.choice(["\n", "\r", "\r\n", "\r\nSIGNAL HALT\r\n", "\n\n"]), rnd.randint(0, 1200)]
         cell["crlf_prefixed"] = rnd.random() < 0.5
+    if rnd.random() < 0.15:
+        # caller blob whose head is drawn from the characters of the type prefix
+        cell["key"] = rnd.choice(ADV_KEY_KINDS)
+        cell["server_variant"] = "opaque-caller-keys"
+        alpha = "RSA1024" if version == 2 else "ED25519V3"
+        head = "".join(rnd.choice(alpha) for _ in range(rnd.randint(1, 14)))
+        cell["adv_blob"] = head + adversarial_blob(version, 0)[len(head):]
+        cell.pop("crlf", None)
+        if version == 3:
+            import base64
+            cell["adv_blob"] = base64.b64encode(base64.b64decode(cell["adv_blob"][:86] + "==")).decode("ascii")
+    if route == "tor" and rnd.random() < 0.5:
+        cell["tor_non_anonymous"] = rnd.choice([True, False])
+        cell["single_hop"] = rnd.choice([False, None, True])
     if route == "auth":
         n = rnd.randint(0, 5)
         names = set()
